@@ -7,8 +7,11 @@
  * pass through) and the answer actually given is logged.  The peer end is a
  * plain non-blocking descriptor drained by the harness after every write.
  *
- * case:   <blk> <shutans> ; ops ; beh0 | beh1 | ... ; script ; -
- * output: <trace> ; <oracle log> ; <pollw log> ; <shutdown(2) answer>
+ * case:   <blk> <shutans> [<conn>] ; ops ; beh0 | beh1 | ... ; script ; -
+ *         conn: "-" (default) stream opened connected; t<k>/u<k>: the script starts right after a real
+ *         non-blocking uv_tcp_connect / uv_pipe_connect to a listener of the harness (the first k
+ *         getsockopt(SO_ERROR) answers are forced to EINPROGRESS); T/U: nobody listens (ECONNREFUSED)
+ * output: <trace> ; <oracle log> ; <pollw log> ; <shutdown(2) answer> ; <conn log: kind:connect(2) result:SO_ERROR answers>
  * trace tokens: see ocaml/drv_c05.ml. */
 #include <stdio.h>
 #include <stdlib.h>
@@ -20,6 +23,7 @@
 #include <signal.h>
 #include <sys/socket.h>
 #include <sys/uio.h>
+#include <sys/un.h>
 #include <netinet/in.h>
 #include <arpa/inet.h>
 #include "uv.h"
@@ -29,6 +33,8 @@ ssize_t __real_write(int, const void*, size_t);
 ssize_t __real_writev(int, const struct iovec*, int);
 ssize_t __real_sendmsg(int, const struct msghdr*, int);
 int __real_shutdown(int, int);
+int __real_connect(int, const struct sockaddr*, socklen_t);
+int __real_getsockopt(int, int, int, void*, socklen_t*);
 
 #define MAXREQ 4096
 #define MAXBEH 512
@@ -41,6 +47,13 @@ struct wreq {
 };
 
 static int tcp_mode;
+/* connecting cases: 't'/'u' = uv_tcp_connect / uv_pipe_connect to a listener of the harness,
+ * 'T'/'U' = to an address nobody listens on; forced_inprog = getsockopt(SO_ERROR) answers
+ * forced to EINPROGRESS first */
+static int conn_mode, forced_inprog, in_connect_call, conn_res, g_ls = -1;
+static uv_connect_t creq;
+static char sock_path[108];
+static FILE* clog; static char* clog_buf; static size_t clog_len;
 static uv_loop_t loop;
 static union { uv_pipe_t pipe; uv_tcp_t tcp; uv_stream_t stream; uv_handle_t handle; } h;
 static uv_prepare_t keepalive;
@@ -64,6 +77,11 @@ static unsigned char pay(int id, size_t i) { return (unsigned char) (id * 131u +
 
 static void drain_peer(void) {
   unsigned char buf[65536];
+  if (g_peer < 0 && g_ls >= 0) {
+    g_peer = accept(g_ls, NULL, NULL);
+    if (g_peer >= 0) fcntl(g_peer, F_SETFL, fcntl(g_peer, F_GETFL) | O_NONBLOCK);
+  }
+  if (g_peer < 0) return;
   for (;;) {
     ssize_t r = read(g_peer, buf, sizeof buf);
     if (r > 0) {
@@ -175,6 +193,28 @@ int __wrap_shutdown(int fd, int how) {
   return r;
 }
 
+int __wrap_connect(int fd, const struct sockaddr* a, socklen_t l) {
+  int r = __real_connect(fd, a, l), e = errno;
+  if (in_connect_call) { conn_res = r == 0 ? 0 : -e; g_fd = fd; }
+  errno = e;
+  return r;
+}
+int __wrap_getsockopt(int fd, int level, int name, void* val, socklen_t* len) {
+  int r, e;
+  if (!g_active || fd != g_fd || level != SOL_SOCKET || name != SO_ERROR)
+    return __real_getsockopt(fd, level, name, val, len);
+  if (forced_inprog > 0) {
+    forced_inprog--;
+    *(int*) val = EINPROGRESS;
+    fprintf(clog, "%d,", EINPROGRESS);
+    return 0;
+  }
+  r = __real_getsockopt(fd, level, name, val, len); e = errno;
+  fprintf(clog, "%d,", r == 0 ? *(int*) val : e);
+  errno = e;
+  return r;
+}
+
 static size_t qsz(void) { return uv_stream_get_write_queue_size(&h.stream); }
 
 static void run_beh(void) {
@@ -192,6 +232,12 @@ static void shutdown_cb(uv_shutdown_t* req, int status) {
   (void) req;
   if (g_quiet) return;
   printf("B:%d ", status);
+  run_beh();
+}
+static void connect_cb(uv_connect_t* req, int status) {
+  (void) req;
+  if (g_quiet) return;
+  printf("k:%d ", status);
   run_beh();
 }
 static void close_cb(uv_handle_t* hd) { (void) hd; g_closed = 1; if (!g_quiet) printf("x "); }
@@ -287,7 +333,10 @@ static void run_case(char* line) {
   sec[nsec++] = p;
   while (nsec < 5 && (p = strchr(p, ';')) != NULL) { *p++ = 0; sec[nsec++] = p; }
   if (nsec < 4) { printf("badcase\n"); return; }
-  sscanf(sec[0], "%d %d", &blk, &shutans_script);
+  { char cm[32] = "-";
+    sscanf(sec[0], "%d %d %31s", &blk, &shutans_script, cm);
+    conn_mode = cm[0] == '-' ? 0 : cm[0];
+    forced_inprog = conn_mode ? atoi(cm + 1) : 0; }
   if (shutans_script < 0) shutans_script = -shutans_script;
   /* behaviours */
   nbeh = 0; cbn = 0;
@@ -309,16 +358,48 @@ static void run_case(char* line) {
   nreq = 0; g_quiet = 0; g_closing = 0; g_closed = 0; shut_called = 0; shutans_seen = -shutans_script;
   peer_bytes = 0; peer_eof = 0; peer_ok = 1; expect_len = 0;
 
-  if (make_pair(fds)) { printf("nosocket\n"); return; }
-  g_fd = fds[0]; g_peer = fds[1];
-  fcntl(g_peer, F_SETFL, fcntl(g_peer, F_GETFL) | O_NONBLOCK);
+  clog = open_memstream(&clog_buf, &clog_len);
+  g_fd = g_peer = g_ls = -1; sock_path[0] = 0; conn_res = 0;
   uv_loop_init(&loop);
   uv_prepare_init(&loop, &keepalive);
   uv_prepare_start(&keepalive, prep_cb);
-  if (tcp_mode) { uv_tcp_init(&loop, &h.tcp); uv_tcp_open(&h.tcp, g_fd); }
-  else { uv_pipe_init(&loop, &h.pipe, 0); uv_pipe_open(&h.pipe, g_fd); }
+  if (!conn_mode) {
+    if (make_pair(fds)) { printf("nosocket\n"); return; }
+    g_fd = fds[0]; g_peer = fds[1];
+    fcntl(g_peer, F_SETFL, fcntl(g_peer, F_GETFL) | O_NONBLOCK);
+    if (tcp_mode) { uv_tcp_init(&loop, &h.tcp); uv_tcp_open(&h.tcp, g_fd); }
+    else { uv_pipe_init(&loop, &h.pipe, 0); uv_pipe_open(&h.pipe, g_fd); }
+    g_active = 1;
+  } else if (conn_mode == 't' || conn_mode == 'T') {
+    struct sockaddr_in a; socklen_t al = sizeof a; int r;
+    g_ls = socket(AF_INET, SOCK_STREAM, 0);
+    memset(&a, 0, sizeof a); a.sin_family = AF_INET; a.sin_addr.s_addr = htonl(INADDR_LOOPBACK);
+    if (bind(g_ls, (struct sockaddr*) &a, sizeof a) || (conn_mode == 't' && listen(g_ls, 4)) ||
+        getsockname(g_ls, (struct sockaddr*) &a, &al)) { printf("nosocket\n"); return; }
+    fcntl(g_ls, F_SETFL, fcntl(g_ls, F_GETFL) | O_NONBLOCK);
+    uv_tcp_init(&loop, &h.tcp);
+    g_active = 1; in_connect_call = 1;
+    r = uv_tcp_connect(&creq, &h.tcp, (struct sockaddr*) &a, connect_cb);
+    in_connect_call = 0;
+    if (r != 0) { printf("connect-refused-synchronously %d\n", r); return; }
+  } else {
+    struct sockaddr_un a; static int seq; const char* dir = getenv("C05_SOCKDIR");
+    snprintf(sock_path, sizeof sock_path, "%s/c05.%d.%d.sock", dir ? dir : "/tmp", (int) getpid(), seq++);
+    g_ls = socket(AF_UNIX, SOCK_STREAM, 0);
+    memset(&a, 0, sizeof a); a.sun_family = AF_UNIX; strcpy(a.sun_path, sock_path);
+    unlink(sock_path);
+    if (bind(g_ls, (struct sockaddr*) &a, sizeof a) || (conn_mode == 'u' && listen(g_ls, 4))) { printf("nosocket\n"); return; }
+    fcntl(g_ls, F_SETFL, fcntl(g_ls, F_GETFL) | O_NONBLOCK);
+    uv_pipe_init(&loop, &h.pipe, 0);
+    g_active = 1; in_connect_call = 1;
+    uv_pipe_connect(&creq, &h.pipe, sock_path, connect_cb);
+    in_connect_call = 0;
+  }
+  if (conn_mode && g_fd >= 0) {          /* let the kernel finish the handshake (or the refusal) */
+    struct pollfd pf; pf.fd = g_fd; pf.events = POLLOUT; pf.revents = 0;
+    poll(&pf, 1, 5000);
+  }
   if (blk) h.handle.flags |= UV_HANDLE_BLOCKING_WRITES;
-  g_active = 1;
 
   do_ops(sec[1], 0);
 
@@ -331,11 +412,15 @@ static void run_case(char* line) {
   uv_close((uv_handle_t*) &keepalive, NULL);
   for (i = 0; i < 50 && uv_run(&loop, UV_RUN_NOWAIT); i++) ;
   uv_loop_close(&loop);
-  close(g_peer);
-  g_fd = g_peer = -1;
-  fclose(olog); fclose(plog);
-  printf(" ; %s; %s; %d\n", olog_buf, plog_buf, shutans_seen);
-  free(olog_buf); free(plog_buf); free(script);
+  if (g_peer >= 0) close(g_peer);
+  if (g_ls >= 0) close(g_ls);
+  if (sock_path[0]) unlink(sock_path);
+  g_fd = g_peer = g_ls = -1;
+  fclose(olog); fclose(plog); fclose(clog);
+  if (conn_mode) printf(" ; %s; %s; %d ; %c:%d:%s\n", olog_buf, plog_buf, shutans_seen,
+                        (conn_mode == 't' || conn_mode == 'T') ? 't' : 'u', conn_res, clog_buf);
+  else printf(" ; %s; %s; %d ; -\n", olog_buf, plog_buf, shutans_seen);
+  free(olog_buf); free(plog_buf); free(clog_buf); free(script);
   for (i = 0; i < nreq; i++) { free(reqs[i]->payload); free(reqs[i]); reqs[i] = NULL; }
 }
 
